@@ -101,7 +101,7 @@ pub fn run_one(tr: &RunTrace, opts: &RunOpts) -> RunReport {
         HEAP_FILL.store((tr.knobs.heap as u8) ^ 0x5a | 1, Ordering::Relaxed);
     }
     let pending = std::mem::take(&mut *world.pending.lock().unwrap_or_else(std::sync::PoisonError::into_inner));
-    let mut deep_budget = if opts.miri { 3usize } else { 60 };
+    let mut deep_budget = if opts.miri { 1usize } else { 60 };
     for p in &pending {
         if matches!(p.outcome, Outcome::Panic(PanicClass::Logger)) {
             continue;
